@@ -199,10 +199,7 @@ Proof. exact FormatRLModel.rl_conform_bytes. Qed.
 Print Assumptions C07_writes_conform_rl.
 
 (* composite types, over the (early) models of their constructors: stated, not proved in this round *)
-Definition C07_writes_conform_sparse_statement : Prop := forall sp m w n ps sv,
-  1 <= w <= 63 -> n < 2 ^ 63 -> F.sorted_lt ps = true -> Forall (fun x => x < n) ps ->
-  sv_build_set sp m w n ps = Ok (inl sv) ->
-  F.doc_valid_sparse (sv_serialize sv) = true /\ F.doc_content_sparse (sv_serialize sv) = Some (n, ps).
+(* SparseVector: proved, see C07_writes_conform_sparse / C07_writes_conform_sparse_multiset in Props/C07_sparse.v *)
 (* RLVector: proved, see C07_writes_conform_rl above *)
 (* WMCore / WaveletMatrix: proved, see C07_writes_conform_wmcore / C07_writes_conform_wm in Props/C07_wm.v *)
 
